@@ -89,6 +89,82 @@ def closure_defs_of_call(fg, b, t):
     return out
 
 
+
+def closure_len_predicate_ok(cb, mode):
+    """Does this closure (the predicate of `all` / `any`) accept an element only if *every* length
+    comparison in it holds?  The small CFG is interpreted for all outcomes of its comparisons:
+    mode "all": result true  => every Eq comparison true and every Ne comparison false;
+    mode "any": result false => likewise (`any(|x| x.len() != n)` rejects when it returns true)."""
+    import itertools
+    cmps = {}      # local -> ("Eq"|"Ne")
+    for blk in cb.blocks:
+        for st in blk["s"]:
+            if st["k"] == "assign" and not st["p"]["pr"] and st["r"]["k"] == "bin" and st["r"]["op"] in ("Eq", "Ne"):
+                cmps[st["p"]["l"]] = st["r"]["op"]
+    if not cmps or len(cmps) > 5:
+        return False
+    keys = sorted(cmps)
+    for vals in itertools.product([False, True], repeat=len(keys)):
+        env = dict(zip(keys, vals))
+        known = dict(env)
+        cur = 0
+        ret = None
+        for _ in range(200):
+            blk = cb.blocks[cur]
+            for st in blk["s"]:
+                if st["k"] != "assign" or st["p"]["pr"]:
+                    continue
+                r = st["r"]
+                l = st["p"]["l"]
+                if l in env:
+                    continue
+                if r["k"] == "use":
+                    o = r["o"]
+                    if o["k"] == "const":
+                        known[l] = o.get("v") in ("1", "true")
+                    elif not o["p"]["pr"] and o["p"]["l"] in known:
+                        known[l] = known[o["p"]["l"]]
+                elif r["k"] == "un" and r.get("op") == "Not" and r["a"]["k"] != "const" and r["a"]["p"]["l"] in known:
+                    known[l] = not known[r["a"]["p"]["l"]]
+            t = blk["t"]
+            if t["k"] == "return":
+                ret = known.get(0)
+                break
+            if t["k"] == "goto":
+                cur = t["t"]
+            elif t["k"] == "switch":
+                o = t["o"]
+                if o["k"] == "const" or o["p"]["pr"] or o["p"]["l"] not in known:
+                    return False
+                v = "1" if known[o["p"]["l"]] else "0"
+                tm = {str(a): tb for a, tb in t["ts"]}
+                cur = tm.get(v, t["else"])
+            elif t["k"] in ("call", "drop", "assert"):
+                cur = t["t"]
+                if cur is None:
+                    return False
+            else:
+                return False
+        if ret is None:
+            return False
+        all_equal = all((env[k_] if cmps[k_] == "Eq" else not env[k_]) for k_ in keys)
+        accepted = ret if mode == "all" else (not ret)
+        if accepted and not all_equal:
+            return False
+    return True
+
+
+def _copy_chain(b, l, target, depth=0):
+    if l == target:
+        return True
+    if depth > 4:
+        return False
+    d = defs_of(b, l)
+    if len(d) == 1 and d[0][1] != "t" and d[0][2]["k"] == "use" and d[0][2]["o"]["k"] != "const" and not d[0][2]["o"]["p"]["pr"]:
+        return _copy_chain(b, d[0][2]["o"]["p"]["l"], target, depth + 1)
+    return False
+
+
 def length_guards(S, bk, b):
     """Fail-closed length tests of body b: list of (root local of the measured container,
     good edges, exact?) - including tests written as `iter().any(|x| x.len() != n)`."""
@@ -101,7 +177,24 @@ def length_guards(S, bk, b):
             tail = names[-1].rsplit("::", 1)[-1] if names else ""
             tt = b.blocks[cbi]["t"]
             if tail in ("len", "is_empty") and tt["args"]:
-                out.append((root_local(b, tt["args"][0]), c.good_edges, True, c))
+                # in a compound condition the test of *this* vector must reject on its own: the mismatch edge
+                # of the comparison that uses this length cannot reach Ok (`a.len() == n || b.len() == n`
+                # accepts a short `a`)
+                own_ok = True
+                ln = tt["d"]["l"]
+                for bj, blk in enumerate(b.blocks):
+                    for st in blk["s"]:
+                        if st["k"] == "assign" and st["r"]["k"] == "bin" and st["r"]["op"] in ("Eq", "Ne") and blk["t"]["k"] == "switch" and blk["t"]["o"]["k"] != "const" and blk["t"]["o"]["p"]["l"] == st["p"]["l"]:
+                            ops = [o for o in (st["r"]["a"], st["r"]["b"]) if o["k"] != "const" and not o["p"]["pr"]]
+                            if not any(_copy_chain(b, o["p"]["l"], ln) for o in ops):
+                                continue
+                            tm = {str(v): tb for v, tb in blk["t"]["ts"]}
+                            zero, other = tm.get("0"), blk["t"]["else"]
+                            mismatch = other if st["r"]["op"] == "Ne" else zero
+                            if mismatch is not None and not edge_fail_closed(b, bj, mismatch)[0]:
+                                own_ok = False
+                if own_ok:
+                    out.append((root_local(b, tt["args"][0]), c.good_edges, True, c))
             if tail in ("any", "all") and tt["args"]:
                 # closure(s) measuring elements of the iterated container
                 has_len = False
@@ -116,7 +209,7 @@ def length_guards(S, bk, b):
                         cb = fg.bodies[ck]
                         for bi2, t2 in cb.calls():
                             n2 = callee_names(t2)
-                            if n2 and n2[-1].rsplit("::", 1)[-1] in ("len", "is_empty"):
+                            if n2 and n2[-1].rsplit("::", 1)[-1] in ("len", "is_empty") and closure_len_predicate_ok(cb, tail):
                                 has_len = True
                             st.extend(closure_defs_of_call(fg, cb, t2))
                 if has_len:
@@ -260,6 +353,34 @@ def rule_peer_shaped_sinks(S, res):
                 n_sinks += 1
                 res.bad("R1.i" if tail in INDEX_TAILS else "R1.iii", "%s|%s|decrypt" % (b.owner.rsplit("::", 1)[-1], tail),
                         "`%s` on the decrypted row plaintext (shape chosen by the garbler)" % tail, where(b, e.block))
+    # ... and its parts after they were stored into an own table (`macs[p] = mac_r; .. macs[p_j][p_i]`): values
+    # of the plaintext's container types reached through alias / store edges inside the same function
+    dcomp = [n for n in S.comp.get("decrypt", {}) if n[0] != "F"]
+    dtypes = {norm_ty(S.node_ty(n)) for n in dcomp if is_container(norm_ty(S.node_ty(n)))}
+    if dcomp and dtypes:
+        owners = {fg.bodies[n[0]].owner for n in dcomp}
+
+        def ext_edge(e):
+            if e.src[0] == "F" or e.dst[0] == "F" or fg.bodies[e.src[0]].owner != fg.bodies[e.dst[0]].owner:
+                return False
+            return e.kind in ("alias", "alias_fb", "mutarg", "mutarg2") or secmod.struct_edge(e)
+        ext = fg.forward(dcomp, node_ok=lambda x: x[0] != "F" and fg.bodies[x[0]].owner in owners, edge_ok=ext_edge, local=True, deep=True)
+        for n in ext:
+            if n in S.comp.get("decrypt", {}) or norm_ty(S.node_ty(n)) not in dtypes:
+                continue
+            bk = n[0]
+            b = fg.bodies[bk]
+            for e in fg.out.get(n, ()):
+                if e.kind != "call" or e.block is None or e.body != bk or (e.info or {}).get("arg") != 0:
+                    continue
+                names = e.info.get("names") or []
+                tail = names[-1].rsplit("::", 1)[-1] if names else ""
+                if tail in ("index", "index_mut", "split_at", "copy_from_slice", "swap", "remove") and (bk, e.block) not in seen:
+                    seen.add((bk, e.block))
+                    n_sinks += 1
+                    res.bad("R1.i", "%s|%s|decrypt-stored" % (b.owner.rsplit("::", 1)[-1], tail),
+                            "`%s` on a vector taken from the decrypted row plaintext after it was stored in an own table (its length is chosen by the garbler)" % tail, where(b, e.block),
+                            key="R1.i|%s|%s|decrypt-stored" % (b.owner.rsplit("::", 1)[-1], tail))
     res.floor("sinks_on_message_components", n_sinks, 20)
     res.count("guarded_peer_shaped_sinks", n_guarded)
     if not [v for v in res.violations if v["rule"] in ("R1.i", "R1.iii")]:
